@@ -80,7 +80,7 @@ def check_const(case, ctx):
     def loop():
         q = q0.copy()
         for _ in range(n):
-            q = np.asarray(ar.update(q, w.copy(), method="closed", dt=dt), float)
+            q = np.asarray(ar.update(q, w.copy(), method=gens.spell("closed", n), dt=dt), float)     # method names are compared case-insensitively
         return q
     out = call(loop)
     if ctx.returned(out, route="closed/update"):
@@ -88,7 +88,7 @@ def check_const(case, ctx):
         if q is not None:
             ctx.le("n closed-form steps of a constant rate = q0 * exp(rate n dt / 2)", qd(q, exp_n), 1e-13 * max(n, 10), {"n": n, "x": float(np.linalg.norm(w) * dt)}, route="closed/update")
             ctx.le("result is a unit quaternion", abs(np.linalg.norm(q) - 1), 1e-13, route="closed/update")
-    out = call(lambda: np.asarray(ahrs.filters.AngularRate(np.tile(w, (n + 1, 1)), q0=q0.copy(), Dt=dt).Q, float))
+    out = call(lambda: np.asarray(ahrs.filters.AngularRate(np.tile(w, (n + 1, 1)), q0=q0.copy(), Dt=dt, method=gens.spell("closed", n + 1)).Q, float))
     if ctx.returned(out, route="closed/batch"):
         Q = as_real_array(ctx, out.value, (n + 1, 4), route="closed/batch", what="quaternion array")
         if Q is not None:
@@ -106,7 +106,7 @@ def check_series(case, ctx):
     x = float(np.linalg.norm(w) * dt)
     ar = ahrs.filters.AngularRate()
     ref = rq.qmul(q0, rq.qexp_pure(w * dt / 2))
-    out = call(lambda: [np.asarray(ar.update(q0.copy(), w.copy(), method="series", order=k, dt=dt), float) for k in range(0, 7)])
+    out = call(lambda: [np.asarray(ar.update(q0.copy(), w.copy(), method=gens.spell("series", k), order=k, dt=dt), float) for k in range(0, 7)])
     r = "series/order"
     if not ctx.returned(out, route=r):
         return
